@@ -276,6 +276,8 @@ def _to_py(v):
 
 
 def _same_scalar(real, want, sort=None):
+    if (isinstance(real, np.ndarray) and real.ndim > 0) or isinstance(real, (list, tuple, dict)):
+        return False  # a container where the contract has a scalar
     real = _to_py(real)
     if isinstance(real, np.datetime64) or sort == "dt64":
         real = int(np.datetime64(real, "ns").astype("int64"))
